@@ -549,7 +549,12 @@ impl NamingActor {
             for instance_key in keys {
                 let service_key = instance_key.get_service_key();
                 let short_key = instance_key.get_short_key();
-                self.remove_instance(&service_key, &short_key, Some(client_id));
+                // a persistent instance outlives the connection that registered it
+                if let Some(instance) = self.get_instance(&service_key, &short_key) {
+                    if instance.ephemeral {
+                        self.remove_instance(&service_key, &short_key, Some(client_id));
+                    }
+                }
             }
         }
     }
